@@ -1,5 +1,7 @@
 package abmf
 
+//gosx:file replay=engine
+
 import (
 	"strconv"
 
